@@ -40,7 +40,7 @@ per (function, aliasing/mutation kind) so that each genuine defect of the unchan
 Cases whose generated arguments the callable rejects (it raises) are not evaluations of the property and are skipped.
 
 NOT covered by this tier: callables outside the five packages (io, vis, simulation, cengine); argument shapes /
-descriptor types outside the pool (e.g. >3 RDMs x 5 conditions, nested descriptor values); histories longer than
+descriptor types outside the pool (more than 5 RDMs x 7 conditions, nested descriptor values); histories longer than
 producer + ONE in-place operation; effects on the file system of save(); the 'index' entries (excluded by the
 property's fingerprint); thread interleavings.  The all-inputs frame / freshness analysis is engine A (vf/frame).
 """
@@ -1424,13 +1424,15 @@ def _s_parse(P, v, rec):
 @spec('util.inference_util.all_tests', 'util.inference_util.nc_tests', 'util.inference_util.zero_tests',
       'util.inference_util.pair_tests')
 def _s_alltests(P, v, rec):
-    if v >= 6:
+    if v >= 7:
         return None
-    tt = ['t-test', 'bootstrap', 'ranksum'][v % 3]
-    nc2d = v < 3
+    tt = ['t-test', 'bootstrap', 'ranksum'][v % 3] if v < 6 else 'bootstrap'
+    nc2d = v < 3 or v == 6
     sig = inspect.signature(rec.func).parameters
-    nb, nm = 6, 3
-    d = dict(evaluations=P.rs.rand(nb, nm), test_type=tt)
+    # v == 6: two bootstrap samples, so that the `noise_lower_bs.shape = (noise_ceil.shape[0], 1)` statement on the view of the
+    # caller's noise_ceil is reached (it raises for any other number of samples)
+    nb, nm = (2 if v == 6 else 6), 3
+    d = dict(evaluations=P.rs.rand(nb, nm, 4) if tt == 'ranksum' else P.rs.rand(nb, nm), test_type=tt)
     if 'noise_ceil' in sig:
         d['noise_ceil'] = (P.rs.rand(2, nb) + 1) if nc2d else (P.rs.rand(2) + 1)
     if 'model_var' in sig:
